@@ -716,6 +716,75 @@ func baseIsLocalAlloc(v ssa.Value, d int) bool {
 	return false
 }
 
+// storeIntoCallersFreshObject: the object written is one f was handed through a pointer parameter, and at
+// every call site of f that argument is (the address of) an object the caller allocated itself — a partial
+// still under construction that a helper fills in (t.parseModifiers(&lic)). f must have at least one static
+// call site and must not be used as a value.
+func storeIntoCallersFreshObject(p *Prog, funcs []*ssa.Function, f *ssa.Function, base ssa.Value, depth int) bool {
+	if depth > 3 {
+		return false
+	}
+	for d := 0; d < 6; d++ {
+		switch t := base.(type) {
+		case *ssa.FieldAddr:
+			base = t.X
+			continue
+		case *ssa.IndexAddr:
+			base = t.X
+			continue
+		}
+		break
+	}
+	prm, ok := base.(*ssa.Parameter)
+	if !ok {
+		return false
+	}
+	idx := -1
+	for i, q := range f.Params {
+		if q == prm {
+			idx = i
+		}
+	}
+	if idx < 0 {
+		return false
+	}
+	sites := 0
+	for _, g := range funcs {
+		for _, b := range g.Blocks {
+			for _, in := range b.Instrs {
+				if mc, ok := in.(*ssa.MakeClosure); ok && mc.Fn == ssa.Value(f) {
+					return false
+				}
+				ci, ok := in.(ssa.CallInstruction)
+				if !ok {
+					continue
+				}
+				com := ci.Common()
+				for _, a := range com.Args {
+					if a == ssa.Value(f) {
+						return false // handed on as a value
+					}
+				}
+				if com.StaticCallee() != f {
+					continue
+				}
+				sites++
+				if idx >= len(com.Args) {
+					return false
+				}
+				arg := com.Args[idx]
+				if baseIsLocalAlloc(arg, 0) {
+					continue
+				}
+				if !storeIntoCallersFreshObject(p, funcs, g, arg, depth+1) {
+					return false
+				}
+			}
+		}
+	}
+	return sites > 0
+}
+
 func fieldWrites(p *Prog, family map[string]bool) []fieldWriteInfo {
 	m := map[string]*fieldWriteInfo{}
 	var funcs []*ssa.Function
@@ -761,7 +830,7 @@ func fieldWrites(p *Prog, family map[string]bool) []fieldWriteInfo {
 					w = &fieldWriteInfo{field: strings.TrimPrefix(fk.String(), p.ModPath+"/")}
 					m[fk.String()] = w
 				}
-				if baseIsLocalAlloc(fa.X, 0) {
+				if baseIsLocalAlloc(fa.X, 0) || storeIntoCallersFreshObject(p, funcs, f, fa.X, 0) {
 					w.construction++
 				} else {
 					w.mutations = append(w.mutations, in)
